@@ -265,11 +265,11 @@ func histHooks(rig *wire.Rig) {
 		}
 		switch n % 3 {
 		case 1:
-			return &smtp.SMTPError{Code: code, Message: t + " refused"}
+			return &smtp.SMTPError{Code: code, Message: t + " refused 100%"}
 		case 2:
-			return errors.New(t + " refused (plain error)")
+			return errors.New(t + " refused (plain error) %s")
 		}
-		return &smtp.SMTPError{Code: code, EnhancedCode: ec, Message: t + " refused"}
+		return &smtp.SMTPError{Code: code, EnhancedCode: ec, Message: t + " refused %d"}
 	}
 	rig.BE.H.NewSession = func(c *smtp.Conn, sess int) error {
 		if strings.HasPrefix(c.Hostname(), "rej") {
